@@ -1576,15 +1576,24 @@ def w_reuse(case: dict) -> dict:
         shared = new_config()
         before = core.jdump(shared)
         answers = []
+        oneobj = None   # ONE response object answering every challenge: re-targeted through its public `dac` attribute
         for i, (chal, duuid, dacb) in enumerate(rounds):
             row = {}
-            for kind, cfg in (("reused", shared), ("fresh", new_config())):
+            for kind, cfg in (("reused", shared), ("fresh", new_config()), ("sameobj", None)):
                 dac = make_dac({"bytes": dacb, "ver": (2, 0) if ele2 else p["ver"], "socc": fam["socc"], "uuid": duuid, "chal": chal,
                                 "rkth": core.seeded_bytes(seed, "rkth", dac_hash_len(fam, (2, 0) if ele2 else p["ver"])), "revocation": 0,
                                 "pinned": 0, "default": 0, "cc_vu": 0, "swapped": bool(fam["swapped"]), "fam": fam}, o)
                 if dac is None:
                     return o.result()
-                st, dar = call(DebugAuthenticateResponse.load_from_config, cfg, dac)
+                if kind == "sameobj":
+                    if oneobj is None:
+                        st, dar = call(DebugAuthenticateResponse.load_from_config, new_config(), dac)
+                        oneobj = dar if st == "ok" else None
+                    else:
+                        oneobj.dac = dac
+                        st, dar = "ok", oneobj
+                else:
+                    st, dar = call(DebugAuthenticateResponse.load_from_config, cfg, dac)
                 if st == "ok":
                     st, dar = call(dar.export)
                 if st != "ok":
@@ -1595,12 +1604,12 @@ def w_reuse(case: dict) -> dict:
             if row is None:
                 break
             answers.append(row)
-            o.c("dar_built", 2)
+            o.c("dar_built", 3)
         if core.jdump(shared) != before:
             o.c("response_config_dict_changed_by_load_from_config")  # counted; what is demanded is that later answers are right
         for i, row in enumerate(answers):
             chal, duuid, _ = rounds[i]
-            for kind in ("reused", "fresh"):
+            for kind in ("reused", "fresh", "sameobj"):
                 rb = row[kind]
                 if ele2:
                     try:
@@ -1619,18 +1628,20 @@ def w_reuse(case: dict) -> dict:
                     other = next((j for j, r in enumerate(rounds) if j != i and R.verify_dar(
                         parts, dck, data, 3, r[1] if with_uuid else None, r[0], dpss, fast=True)), None)
                 o.c("dar_reuse_answers_judged")
-                which = f"{'first' if i == 0 else 'later'}-answer-of-{kind}-config"
+                which = f"{'first' if i == 0 else 'later'}-answer-of-{kind}-{'config' if kind != 'sameobj' else 'response-object'}"
                 if other is not None:
                     o.v("dar-binding", f"reused-config:{which}:answers-another-challenge",
                         f"response #{i} carries / verifies for the challenge of request #{other}", scope=p["layout"])
                 elif not ok or not mine:
                     o.v("dar-signature" if mine else "dar-embeds", f"reused-config:{which}:{'does-not-verify' if mine else 'wrong-content'}",
                         f"response #{i}", scope=p["layout"])
-            a, b = row["reused"], row["fresh"]
+            b = row["fresh"]
             cut = R.parse_signed_msg_v2(b)["signed_end"] if ele2 else len(data) + 4 + (16 if with_uuid else 0)
-            if a[:cut] != b[:cut] or len(a) != len(b):
-                o.v("dar-embeds", f"reused-config:{'first' if i == 0 else 'later'}-answer-differs-from-fresh-config",
-                    f"response #{i}: the two differ before the signature", scope=p["layout"])
+            for kind in ("reused", "sameobj"):
+                a = row[kind]
+                if a[:cut] != b[:cut] or len(a) != len(b):
+                    o.v("dar-embeds", f"reused-config:{'first' if i == 0 else 'later'}-answer{'-of-response-object' if kind == 'sameobj' else ''}-differs-from-fresh-config",
+                        f"response #{i}: the two differ before the signature", scope=p["layout"])
         o.distinct.append(f"reuse|{cls}|{fam['kind_key']}")
     finally:
         shutil.rmtree(tmp, ignore_errors=True)
